@@ -282,7 +282,7 @@ def run_comments(ctx, FST, rnd, src, label):
             return
         # what the statement and every enclosing block report as their own source afterwards == what a fresh parse of the new text reports
         try:
-            fresh = FST(root.src, 'exec')
+            fresh = FST(root.src, 'exec', indent=root.indent)
             for anc in ancestors:
                 if anc.a is None or anc is root:
                     continue
